@@ -112,7 +112,12 @@ def gen(item, rng, tier):
             ops[-1]['ns'] = 1          # the Non-secure attribute of the descriptor is not part of the address
         if path in ('mem_a', 'mem_u') or (path == 'insn' and size in (2, 4)):
             ops[-1]['be'] = int(rng.random() < 0.15)           # CPSR.E=1: the same bytes, most significant first
-        if path == 'insn' and size == 4 and not ops[-1].get('be') and addr + 16 <= 0x100000000 and rng.random() < 0.25:        # (address wrap inside LDM/STM is an instruction matter, C03)
+        if path == 'insn' and size in (1, 2, 4) and rng.random() < 0.12:
+            # the same load/store, but refused by the MPU (no region covers the address, no background region): a Data Abort is taken, nothing is
+            # transferred - and nothing the aborted access left behind may change what later accesses do (byte order of the access included)
+            ops[-1]['denied'] = 1
+            ops[-1]['be'] = int(rng.random() < 0.6)
+        elif path == 'insn' and size == 4 and not ops[-1].get('be') and addr + 16 <= 0x100000000 and rng.random() < 0.25:        # (address wrap inside LDM/STM is an instruction matter, C03)
             # LDM/STM r1,{r2..}: 2-4 consecutive word accesses, each with its own device lookup (may run across a device end or past 2^32)
             ops[-1]['multi'] = rng.randrange(2, 5)
             ops[-1]['value'] = ((i + 1) * 0x01010101010101010101010101010101 ^ rng.getrandbits(128)) & ((1 << (32 * ops[-1]['multi'])) - 1)
@@ -403,6 +408,24 @@ def run(case):
                 code.memory_array[0:4] = w.to_bytes(4, 'little')
                 r.branch_to(CODE)
                 r.cpsr.e = op.get('be', 0)
+                if op.get('denied') and not (CODE - 8 <= addr < CODE + 0x100):
+                    # MPU on for this one step: region 0 = the code window (full access), nothing else, SCTLR.BR = 0
+                    r.drsrs[0].value, r.drbars[0], r.dracrs[0].value = 1 | 7 << 1, CODE, 3 << 8
+                    r.sctlr.m, r.sctlr.br = 1, 0
+                    before = [bytes(x.memory_array) for x in rams]
+                    arm.emulate_cycle()
+                    r.sctlr.m = 0
+                    r.drsrs[0].value = 0
+                    count('fault.mpu-deny')
+                    if r.cpsr.m != 0x17:
+                        viol.append({'oracle': 'hub.model', 'site': 'insn:denied', 'cls': 'no_abort', 'tick': idx, 'detail': 'access at %#x outside every MPU region: mode %#x after the step' % (addr, r.cpsr.m)})
+                        break
+                    if before != [bytes(x.memory_array) for x in rams]:
+                        viol.append({'oracle': 'hub.model', 'site': 'insn:denied', 'cls': 'denied_access_wrote', 'tick': idx, 'detail': 'aborted access at %#x changed device bytes' % addr})
+                        break
+                    r.cpsr.value = 0x1D3
+                    ticks += 1
+                    continue
                 arm.emulate_cycle()
                 r.cpsr.e = 0
                 ticks += 1
